@@ -542,6 +542,76 @@ macro_rules! tm_entry {
     };
 }
 
+// ------------------------------------------------------------------------------------------------
+// a user-written AllocMeta whose layout is more than the value needs (allowed: "of sufficient size
+// and alignment"): the size rounded up to a size class, the alignment raised. Whatever was
+// requested at allocation has to come back at release - not the value's natural layout.
+
+pub struct PadMeta<const ROUND: usize, const ALIGN: usize>;
+impl<E, const R: usize, const A: usize> gc_arena::meta::PtrMeta<[E], ()> for PadMeta<R, A> {
+    type PtrMetadata = u16;
+    type Thin = ();
+    fn to_thin(_: &'static (), fat: *const [E]) -> *const () {
+        fat as *const ()
+    }
+    fn from_thin(_: &'static (), thin: *const (), m: u16) -> *const [E] {
+        std::ptr::slice_from_raw_parts(thin as *const E, m as usize)
+    }
+}
+impl<E, const R: usize, const A: usize> gc_arena::meta::AllocMeta<[E], ()> for PadMeta<R, A> {
+    fn layout(_: &'static (), m: u16) -> Option<std::alloc::Layout> {
+        let size = (m as usize * size_of::<E>()).next_multiple_of(R).max(R);
+        std::alloc::Layout::from_size_align(size, align_of::<E>().max(A)).ok()
+    }
+}
+fn make_pad<'gc, E: 'static + Copy, const R: usize, const A: usize>(mc: &Mutation<'gc>, len: usize, seed: u64, zero: E) -> Made<'gc> {
+    let g: gc_arena::GcFat<'gc, [Static<E>], (), PadMeta<R, A>> = {
+        let _t = crate::seam::track();
+        // SAFETY: PadMeta is a correct PtrMeta / AllocMeta for [E] (its layout is at least the value's)
+        unsafe {
+            let mut b = gc_arena::GcBuilder::<[Static<E>], (), PadMeta<R, A>>::new_with_type_and_ptr_meta::<gc_arena::meta::UnitTypeMeta>(len as u16);
+            let p = b.as_ptr() as *mut Static<E>;
+            for i in 0..len {
+                p.add(i).write(Static(zero));
+            }
+            b.assume_init(mc)
+        }
+    };
+    let p = Gc::as_ptr(g) as *const E;
+    // what C17 promises is the value's own alignment (the raised one is an input of the layout only)
+    let (size, align) = (size_of::<E>() * len, align_of::<E>());
+    unsafe { fill(p as *mut u8, size, seed, false) };
+    let mut roundtrip = None;
+    let thin: gc_arena::GcThin<'gc, [Static<E>], (), PadMeta<R, A>> = Gc::as_thin(g);
+    let fat = Gc::as_fat(thin);
+    if g.len() != len || fat.len() != len || thin.len() != len || Gc::as_ptr(fat) as *const E != p {
+        roundtrip = Some(format!("as_thin -> as_fat (padded layout): length {} / {} / {}, expected {len}", g.len(), thin.len(), fat.len()));
+    }
+    Made { ptr: Gc::erase(g), addr: p as usize, size, align, roundtrip }
+}
+fn check_pad<'gc, E: 'static, const R: usize, const A: usize>(ptr: Gc<'gc, ()>, len: usize, seed: u64) -> Result<(), String> {
+    let thin: gc_arena::GcThin<'gc, [Static<E>], (), PadMeta<R, A>> = unsafe { Gc::from_thin_ptr_with_kind(Gc::as_ptr(ptr)) };
+    let fat = Gc::as_fat(thin);
+    if fat.len() != len {
+        return Err(format!("re-fattened slice (padded layout) has length {}, allocated with {len}", fat.len()));
+    }
+    let p = Gc::as_ptr(fat) as *const u8;
+    if (p as usize) % align_of::<E>() != 0 {
+        return Err(format!("address is not aligned to {}", align_of::<E>()));
+    }
+    unsafe { verify(p, size_of::<E>() * len, seed, false) }
+}
+macro_rules! pad_entry {
+    ($name:literal, $e:ty, $zero:expr, $r:literal, $a:literal) => {
+        LayVt {
+            name: $name,
+            class: LayClass::Slice,
+            make: |mc, len, seed| make_pad::<$e, $r, $a>(mc, len, seed, $zero),
+            check: |p, len, seed| check_pad::<$e, $r, $a>(p, len, seed),
+        }
+    };
+}
+
 #[derive(Clone, Copy)]
 #[repr(align(64))]
 pub struct Z64;
@@ -581,6 +651,8 @@ pub static LAYS: &[LayVt] = &[
     // the length comes (wholly or partly) from per-type metadata: same value type, several vtables
     tm_entry!("tm<Fix3>[u8]", u8, 0, Fix3, TypeLenMeta), tm_entry!("tm<Fix7>[u8]", u8, 0, Fix7, TypeLenMeta), tm_entry!("tm<Fix0>[u8]", u8, 0, Fix0, TypeLenMeta),
     tm_entry!("tm<Fix3>[u64]", u64, 0, Fix3, TypeLenMeta), tm_entry!("tm<Fix7>[A64]", A64<64>, A64([0; 64]), Fix7, TypeLenMeta),
+    // a user AllocMeta asking for more than the value needs: size classes, raised alignment
+    pad_entry!("pad<32,1>[u8]", u8, 0, 32, 1), pad_entry!("pad<64,64>[u32]", u32, 0, 64, 64), pad_entry!("pad<1,128>[u16]", u16, 0, 1, 128), pad_entry!("pad<48,16>[u64]", u64, 0, 48, 16),
     tm_entry!("tm<Mul4,u8>[u16]", u16, 0, Mul4, MulLenMeta), tm_entry!("tm<Mul1,u8>[u16]", u16, 0, Mul1, MulLenMeta), tm_entry!("tm<Mul4,u8>[A32]", A32<32>, A32([0; 32]), Mul4, MulLenMeta),
 ];
 
